@@ -390,9 +390,10 @@ def _walk_no_defs(n):
 
 # ------------------------------------------------------------------ inlining
 class _Inliner:
-    def __init__(self, mods, known):
+    def __init__(self, mods, known, protected=frozenset()):
         self.mods = mods
         self.known = known
+        self.protected = set(protected)
         self.counter = 0
         self.ord = 0
         self.report = []
@@ -411,7 +412,7 @@ class _Inliner:
         self.cands = {}
         for rel, ds in self.defs.items():
             for d in ds:
-                if d.qual not in self.known and (_eligible(d) or _simple_generator(d.node)):
+                if d.qual not in self.known and d.qual not in self.protected and (_eligible(d) or _simple_generator(d.node)):
                     self.cands[d.qual] = d
         self.imports = {rel: _import_map(rel, tree) for rel, tree in self.mods.items()}
 
@@ -595,6 +596,28 @@ class _Inliner:
         if unify:
             # the helper's result variables are the statement's targets already: `a, b = (a, b)` is dropped
             return pre, "DROP"
+        # `x, y = helper()` with `return (a, b)` on every path: assign the targets where the helper
+        # returns (element-wise), so each target's definitions stay visible to def-use reasoning
+        if isinstance(stmt, ast.Assign) and len(stmt.targets) == 1 and stmt.value is call and isinstance(stmt.targets[0], ast.Tuple) and all(isinstance(t_, ast.Name) for t_ in stmt.targets[0].elts):
+            tnames = [t_.id for t_ in stmt.targets[0].elts]
+            ret_assigns = [x for s_ in pre for x in ast.walk(s_) if isinstance(x, ast.Assign) and len(x.targets) == 1 and isinstance(x.targets[0], ast.Name) and x.targets[0].id == ret]
+            okk = bool(ret_assigns) and all(isinstance(x.value, ast.Tuple) and len(x.value.elts) == len(tnames) for x in ret_assigns)
+            if okk:
+                reads = {n_.id for x in ret_assigns for n_ in ast.walk(x.value) if isinstance(n_, ast.Name)}
+                if not (reads & set(tnames)):
+                    class Split(ast.NodeTransformer):
+                        def visit_Assign(self, x):
+                            if x in ret_assigns:
+                                return [ast.copy_location(ast.Assign(targets=[ast.Name(id=tn, ctx=ast.Store())], value=v_, lineno=x.lineno), x) for tn, v_ in zip(tnames, x.value.elts)]
+                            return x
+
+                    new_pre = []
+                    for s_ in pre:
+                        r_ = Split().visit(s_)
+                        new_pre.extend(r_ if isinstance(r_, list) else [r_])
+                    for s_ in new_pre:
+                        ast.fix_missing_locations(s_)
+                    return new_pre, "DROP"
         return pre, (ast.Name(id=ret, ctx=ast.Load()) if has_value else ast.Constant(value=None))
 
     def generator_expansion(self, d: _Def, loop: ast.For, recv):
@@ -943,6 +966,8 @@ def _const_value(v):
     """literal value of a module-level constant worth propagating, else None"""
     if isinstance(v, ast.Constant) and isinstance(v.value, (str, int, bytes)) and not isinstance(v.value, bool):
         return v
+    if isinstance(v, ast.UnaryOp) and isinstance(v.op, ast.USub) and isinstance(v.operand, ast.Constant) and isinstance(v.operand.value, int) and not isinstance(v.operand.value, bool):
+        return v
     if isinstance(v, (ast.Tuple, ast.List, ast.Set)) and v.elts and all(isinstance(e, ast.Constant) for e in v.elts):
         return ast.Tuple(elts=list(v.elts), ctx=ast.Load())
     if isinstance(v, ast.Call) and isinstance(v.func, ast.Name) and v.func.id in ("frozenset", "set", "tuple") and len(v.args) == 1 and not v.keywords:
@@ -978,8 +1003,16 @@ def fold_new_constants(mods, known):
     """Replace loads of module-level constants that did not exist on the pinned tree by
     their literal value (the dual of inlining an extracted helper: an extracted constant)."""
     folded = []
+    new_by_mod = {rel: {k: v for k, v in module_constants(tree).items() if f"{rel}:{k}" not in known} for rel, tree in mods.items()}
     for rel, tree in mods.items():
-        consts = {k: v for k, v in module_constants(tree).items() if f"{rel}:{k}" not in known}
+        consts = dict(new_by_mod[rel])
+        # new constants of other modules imported by name: from .jsonrpc import METHOD_NOT_FOUND
+        for local, (mod, sym) in _import_map(rel, tree).items():
+            if sym is None or local in consts:
+                continue
+            for orel, oc in new_by_mod.items():
+                if sym in oc and orel[:-3].replace("/", ".").endswith(mod) and mod:
+                    consts[local] = oc[sym]
         # new module-level compiled patterns: NAME = re.compile("...")[, flags]; NAME.split(x) -> re.split("...", x)
         compiled = {}
         counts = {}
@@ -1178,11 +1211,26 @@ def normalise(mods, known=None):
     removed helpers)."""
     if known is None:
         known = known_functions()
+    from . import renames
+
+    kf, kc = renames.load_known()
+    renamed = renames.undo_renames(mods, kf, kc) if isinstance(kf, dict) else []
+    protected = renames.weak_candidates(mods, kf) if isinstance(kf, dict) else set()
     folded = fold_new_constants(mods, known_constants())
+    for what, old, new_, score in renamed:
+        folded.append((f"{what} {new_} is known as {old} (body match {score})", 0))
     expand_match_spans(mods)
     for rel, ln, n in unroll_reflective_loops(mods):
         folded.append((f"loop over {n} option names in {rel}", ln))
-    rep, dropped = _Inliner(mods, known).run()
+    rep, dropped = _Inliner(mods, known, protected).run()
+    if protected and isinstance(kf, dict):
+        # a renamed function whose body had been split into new helpers matches now
+        again = renames.undo_renames(mods, kf, kc)
+        for what, old, new_, score in again:
+            folded.append((f"{what} {new_} is known as {old} (body match {score}, after inlining its helpers)", 0))
+        if again:
+            rep2, dropped2 = _Inliner(mods, known, set()).run()
+            rep, dropped = rep + rep2, dropped + dropped2
     if rep:
         # literal attribute names produced by inlining `helper(self, "name")`
         _, Reflect = constant_reflection(mods)
